@@ -23,7 +23,11 @@ NONSEP = ["hue", "saturation", "color", "luminosity", "darker_color", "lighter_c
 DELTA = 1.0 / 65535.0          # offDiscontinuity: a denominator that is not 0 is >= DELTA
 TOL_CORR = 1e-5                # model (exact) vs float32 implementation
 TOL_SPEC_SEP = 1e-9 / DELTA + 2e-5   # tol(DELTA) of the theorems + float32 slack
-TOL_SPEC_NS = 2e-4             # non-separable: eps/DELTA through set_sat, set_lum, clip_color + float32
+# non-separable: the theorems' bounds + float32 slack
+TOL_SPEC_NS = {"hue": 10e-9 + (1 + 100 / 11) * 2 * (1e-9 / DELTA) + 2e-5,         # hueTol(DELTA)
+               "saturation": 10e-9 + (1 + 100 / 11) * 2 * (1e-9 / DELTA) + 2e-5,
+               "color": 10e-9 + 2e-5, "luminosity": 10e-9 + 2e-5,                   # 10 eps
+               "darker_color": 1e-6, "lighter_color": 1e-6}                         # exact
 RANGE_SLACK = 1e-6             # float32 rounding of a value that is exactly 0 or 1
 NEAR = 1e-6                    # a float-computed discriminant closer than this may fall on either side
 
@@ -213,7 +217,7 @@ class Stats:
         self.max_spec = {}
         self.excluded = {}
         self.near = {}
-        self.overshoot = 0.0
+        self.overshoot = {}
 
     def up(self, d, k, v):
         if v > d.get(k, 0.0):
@@ -244,7 +248,9 @@ def check_range(ctx, st, fn, path, out, a, b):
     hi = (flat > 1 + RANGE_SLACK).any(axis=1)
     inside = flat[np.isfinite(flat) & (flat >= -RANGE_SLACK) & (flat <= 1 + RANGE_SLACK)]
     if inside.size:
-        st.overshoot = max(st.overshoot, float(-inside.min()), float(inside.max() - 1))
+        o = max(float(-inside.min()), float(inside.max() - 1))
+        if o > 0:
+            st.up(st.overshoot, f"{fn}:{path}", o)
     for mask, kind in ((bad_nf, "non-finite"), (lo, "below-0"), (hi, "above-1")):
         if mask.any():
             i = int(np.argmax(mask))
@@ -559,7 +565,7 @@ def ns_cases(ctx, st, drv, tab, fn, path, cb, cs, label, corr=True):
         ok = off_discontinuity_ns(fn, a64, b64)
         st.excluded[key] = st.excluded.get(key, 0) + int((~ok).sum())
         dev = np.abs(out - sp).max(axis=1)
-        viol = ok & ~(dev <= TOL_SPEC_NS)
+        viol = ok & ~(dev <= TOL_SPEC_NS[fn])
         good = dev[ok & ~viol]
         if good.size:
             st.up(st.max_spec, key, good.max())
@@ -577,7 +583,7 @@ def ns_cases(ctx, st, drv, tab, fn, path, cb, cs, label, corr=True):
                      case_of(fn, path, cb, cs, i), out[i].tolist(), sp[i].tolist())
         okc = off_discontinuity_ns(fn, 1 - a64[:, :3], 1 - b64[:, :3])
         dev = np.abs(out[:, :3] - sp[:, :3]).max(axis=1)
-        viol = okc & ~(dev <= TOL_SPEC_NS)
+        viol = okc & ~(dev <= TOL_SPEC_NS[fn])
         ctx.hist("cmyk_cmy_vs_pdf", f"{fn}:differs", int(viol.sum()))
         ctx.hist("cmyk_cmy_vs_pdf", f"{fn}:agrees", int((okc & ~viol).sum()))
         if viol.any():
@@ -740,7 +746,27 @@ def run(ctx: core.Run):
         ctx.recheck(["PsdVerif.Props.C12"])
 
 
-NOTES = []
+NOTES = [
+    "proved (Props/C12.lean): <mode>_range for all 20 separable and 6 non-separable modes (RGB path), <mode>_defined for every "
+    "function that divides (all denominators > 0 on the domain), <mode>_near_spec for all 26 modes (exact equality for 17 modes and "
+    "soft light after the repair; |B - Spec.B| <= tol delta = eps/delta for color dodge, color burn, vivid light, divide; exact off the "
+    "line Cb + Cs = 1 for hard mix; 10 eps for color, luminosity; hueTol delta for hue, saturation), the six identities, the "
+    "BLEND_FUNC / BlendMode / non_separable(k) / numeric-literal ties, offDisc_*_of_grid (the offDiscontinuity hypotheses hold on every "
+    "k/N grid with N <= 65535, except (0,0) for divide and the line a + b = N for hard mix)",
+    "stated in DESIGN, not proved as stated: theorems are over Rat (core Lean), not over an arbitrary ordered field K - the Model files "
+    "may not import Mathlib's field classes; consequence: the sqrt hypotheses of soft_light_range are pointwise (0 <= sq Cb, "
+    "(sq Cb)^2 = Cb, satisfiable at rational squares only) and the generally satisfiable form is soft_light_range_of_bounds "
+    "(Cb <= sq Cb <= 1); soft_light_near_spec needs no hypothesis on sqrt (code and published formula use it in the same place)",
+    "stated in DESIGN, FALSE on the code, not provable: <mode>_range and <mode>_near_spec on the CMYK path of the six non-separable "
+    "modes: cmyk_range_violated (witness), cmyk_range_partial, cmyk_k_is_source_k; three known findings C12/cmyk-wrapper/*",
+    "hue/saturation: hueTol(1/65535) = 1.33e-3 is the proved worst case (Lipschitz constant 2(1+100/11) of the published SetLum); the "
+    "largest deviation observed on the 17^3 x 17^3 lattice is about 1.4e-6",
+    "purity (arguments unmodified) is checked by snapshots in the search; normal and dissolve return the source array itself "
+    "(result_memory histogram) - the property only forbids modifying the arguments, so this is information",
+    "Darker/Lighter Color: the published definition is read with Lum as the 'value' of a colour; under the literal reading of Adobe's "
+    "help text (plain sum of the channels) the code differs on 17 % of the 17^3 x 17^3 lattice pairs "
+    "(darker_color_sum_reading_differs_from_lum_reading_on_lattice, thorough tier)",
+]
 
 
 def run_case(ctx, st, drv, tab, c):
